@@ -220,7 +220,7 @@ class GraphOps:
                             patterns=[z3.MultiPattern(depth(u), depth(v))]))
         st.assume(FA([v], z3.Implies(z3.And(self.node_in(g, v), depth(v) > 0),
                                             z3.And(self.edge_in(g, wit(v), v), depth(wit(v)) == depth(v) - 1)),
-                            patterns=[depth(v)]))
+                            patterns=[wit(v)]))   # inert unless a lemma mentions the witness (no matching loop)
         used(self.it, NX_AX + 'topological_sort yields nodes in non-decreasing longest-path depth '
                               '(topological_generations order)')
         cache[g.id] = True
@@ -243,9 +243,9 @@ class GraphOps:
         st.assume(FA([u, v], z3.Implies(z3.And(rd(v), self.edge_in(g, u, v)), rd(u)),
                             patterns=[z3.MultiPattern(rd(u), rd(v))]))
         st.assume(FA([x], z3.Implies(z3.And(rs(x), x != s), z3.And(rs(ws(x)), self.edge_in(g, ws(x), x))),
-                            patterns=[rs(x)]))
+                            patterns=[ws(x)]))    # witness axioms are inert unless the witness is mentioned
         st.assume(FA([x], z3.Implies(z3.And(rd(x), x != d), z3.And(rd(wd(x)), self.edge_in(g, x, wd(x)))),
-                            patterns=[rd(x)]))
+                            patterns=[wd(x)]))
         res = SymSet.comprehension(st, x, z3.And(self.node_in(g, x), rs(x), rd(x)), 'pathnodes')
         st.ghost.setdefault('paths', []).append(dict(g=g, s=s, d=d, rs=rs, rd=rd, ws=ws, wd=wd, set=res))
         return res
